@@ -141,6 +141,8 @@ def table():
         chk = '; '.join('%s %s: %s' % (p, r.get('tier', ''), 'CAUGHT' if r.get('caught') else 'missed') for p, r in sorted(m.get('checks', {}).items()))
         what = str(m.get('what_it_breaks', m.get('title', '')))[:170].replace('|', '/').replace('\n', ' ')
         need = str(m.get('needs_to_manifest', ''))[:170].replace('|', '/').replace('\n', ' ')
+        if m.get('status', '').startswith('superseded'):
+            chk = 'superseded by a fix in /repo (no longer a violation): ' + chk
         rows.append('| %s | %s | %s -- needs: %s | %s | %s |' % (d.parent.name, m.get('property', ''), what, need,
                                                             'yes' if c.get('ok') else 'NO', chk))
     return '\n'.join(rows)
